@@ -9,7 +9,7 @@ NOTE_TB = ("Trusted: Coq 8.16.1 kernel (coqc; coqchk in the thorough tier), no a
 CLAIMS = {
     "C17": dict(text="Theorems over the generated region/contradiction/state tables: aggregation and activations stay in [0,1], is_contradiction <-> crossed outside the classical tolerance, state() total with the documented table (all alpha in (1/2,1], all bounds in [0,1]); tie: generated tables + exhaustive K2 grid correspondence + independent state oracle on the implementation.",
                 design="7/C17", technique="Coq proof over generated tables + exact differential correspondence"),
-    "C19": dict(text="Theorems over a dual-number model of val_clamp and the transparent activations: value = min(1,max(0,x)), tangent passes unchanged for every direction, hence every partial derivative of a saturated And/Or/Implies equals that of the unclamped linear form (all arities/parameters); tie: val_clamp body matched verbatim by the extractor + exact comparison with torch.autograd.grad.",
+    "C19": dict(text="Theorems over a dual-number model of val_clamp and the transparent activations: value = min(1,max(0,x)), tangent passes unchanged for every direction, hence every partial derivative of a saturated And/Or/Implies equals that of the unclamped linear form (all arities/parameters); formula level (C19_formula_upper/lower_gradient, C19_forall_gradient, C19_exists_gradient): the bounds a connective formula and a Forall/Exists over it store after upward() carry the derivative of the unclamped chain whenever the aggregation's max/min does not tie with the world bound; tie: val_clamp body matched verbatim by the extractor + exact comparison with torch.autograd.grad on the activation class and through the public API (library-default activations of formulae and quantifier neurons).",
                 design="7/C19", technique="Coq proof (dual numbers) + exact autograd correspondence"),
 }
 CLAIMS.update({
@@ -18,9 +18,9 @@ CLAIMS.update({
     "C05": dict(text="Theorem C05_monotone: under Range, every sequence of public inference calls only tightens every object's bounds (aggregation = max/min + clamp). Proved for the propositional engine incl. Iff/XOr; the first-order/quantifier part is covered by the FOL model when present (see level_note).",
                 design="7/C05", technique="Coq proof (monotone invariant) + exact differential correspondence",
                 note=NOTE_TB + " Partial: the theorem covers the propositional engine; first-order tables and quantifiers are only monitored on the implementation until the FOL model lands."),
-    "C13": dict(text="Theorems C13_node_upward/_node_downward/_model_pass: the reported amount equals the total interval width removed (potential function), hence is zero iff no bound of any object changed; for connectives, Not, Iff, XOr (with the repaired accounting of sub-formulae) and model passes.",
+    "C13": dict(text="Theorems C13_node_upward/_node_downward/_model_pass: the reported amount equals the total interval width removed (potential function), hence is zero iff no bound of any object changed; for connectives, Not, Iff, XOr (with the repaired accounting of sub-formulae) and model passes; first-order writes: C13_fol_single_row_partial / C13_fol_merged_rows_partial (amount of a row write and of merged duplicate writes).",
                 design="7/C13", technique="Coq proof (potential function) + exact differential correspondence",
-                note=NOTE_TB + " Partial: propositional engine; quantifier nodes are not in the model yet."),
+                note=NOTE_TB + " Partial: whole first-order passes and quantifier amounts are monitored on the implementation and tied by the correspondence."),
 })
 
 CLAIMS.update({
@@ -73,13 +73,13 @@ CLAIMS.update({
 })
 
 CLAIMS.update({
-    "C18": dict(text="Theorems over the training state machine with an ARBITRARY optimiser (Section variable: any function returning the same formulae with other weights/biases): C18_parameters_admissible (after >= 1 epoch weights >= 0 unless negative weights were requested, within w_max, biases in [0,b_max]; projection follows every optimiser step), C18_only_parameters_move, C18_final_state (bounds left behind = reset_bounds + infer under the final parameters), C18_contradiction_loss and C18_supervised_loss (>= 0; zero iff no bounds cross / labelled bounds equal their labels). Facts and labels are inputs the state machine cannot write. Partial: 'all parameters are finite' is outside an exact-rational model and is only monitored on the sampled traces.",
+    "C18": dict(text="Theorems over the training state machine with an ARBITRARY optimiser (Section variable: any function returning the same formulae with other weights/biases): C18_parameters_admissible (after >= 1 epoch weights >= 0 unless negative weights were requested, within w_max, biases in [0,b_max]; projection follows every optimiser step), C18_only_parameters_move, C18_final_state (bounds left behind = reset_bounds + infer under the final parameters), C18_contradiction_loss and C18_supervised_loss (>= 0; zero iff no bounds cross / labelled bounds equal their labels), C18_fol_contradiction_loss (first-order: the loss is the sum over rows, >= 0, zero iff has_contradiction() is false). Facts and labels are inputs the state machine cannot write. Partial: 'all parameters are finite' is outside an exact-rational model and is only monitored on the sampled traces.",
                 design="7/C18", technique="Coq proof (state machine around an optimiser oracle; projection and loss lemmas) + exact trace replay with a scripted optimiser + fresh-model re-inference on the implementation",
                 note=NOTE_TB + " Partial as stated (finiteness; float arithmetic of Adam not modelled; first-order models and alpha learning not in the training model)."),
 })
 
 CLAIMS.update({
-    "C03": dict(text="Theorems (default alpha, every arity, weights >= 0, any bias): C03_not_tighter (every assignment satisfying all given bounds survives upward+downward, connective and every operand; And, Or, Implies), C03_and_connective_exact / C03_or_connective_exact (both ends of the connective's new interval are attained by feasible assignments: explicit witnesses on the segment between the corners of the operand box), C03_and_infeasible_contradiction (no feasible assignment => crossed bounds at the connective). Partial (named so): operand-end attainment (`C03_operands_attained_statement` is stated, not proved) and the Implies cases of exactness/infeasibility are checked on the implementation against an independent exact hull oracle.",
+    "C03": dict(text="Theorems (default alpha, every arity, weights >= 0, any bias): C03_not_tighter (every assignment satisfying all given bounds survives upward+downward, connective and every operand; And, Or, Implies), C03_and_connective_exact / C03_or_connective_exact (both ends of the connective's new interval are attained by feasible assignments: explicit witnesses on the segment between the corners of the operand box), C03_and_infeasible_contradiction (no feasible assignment => crossed bounds at the connective). C03_and_operand_lower_attained / _upper_attained (every end of every operand interval of an n-ary And is attained by an explicit feasible point). Partial (named so): operand-end attainment for Or/Implies (`C03_operands_attained_statement` is stated) and the Implies cases of exactness/infeasibility are checked on the implementation against an independent exact hull oracle; first-order connectives over joined groundings are checked on the implementation with a two-sided per-row oracle.",
                 design="7/C03", technique="Coq proof (soundness lemmas + explicit segment witnesses instead of an intermediate value theorem) + exact differential correspondence + independent interval-arithmetic hull oracle on the implementation",
                 note=NOTE_TB + " Partial as stated in the claim."),
 })
